@@ -165,6 +165,20 @@ int fam_mul(const vh_args_t *a) {
           vh_mul_case(sq ? (acc ? R_ADDSQR : R_SQR) : mp ? (acc ? R_ADDMP : R_MP) : (acc ? R_ADDMUL : R_MUL), SD[im], SD[il], SD[in], 0, 0, 64, vh_randint(0, 2) == 0);
           VH_CASE_END
         }
+  /* Four-Russians products with an explicit k for every inner dimension l = 1 .. 8k + 9: whole blocks of 8 tables, the
+   * remaining tables one at a time, and the last, narrower table; plain and accumulate */
+  {
+    static const int KS[] = {1, 4, 8};
+    for (int ki = 0; ki < 3; ki++)
+      for (int l = 1; l <= 8 * KS[ki] + 9; l++, sidx++) {
+        if (!a->tier && (int)((l + ki + a->seed) % 2) != 0) continue;
+        if (!VH_SHARD(a, sidx)) continue;
+        vh_case_seed(a, sidx);
+        VH_CASE(sidx)
+        vh_mul_case((l & 1) ? R_ADDM4RM : R_M4RM, vh_pick((int[]){16, 33, 100}, 3), l, vh_pick((int[]){54, 64, 70, 130}, 4), 0, 0, KS[ki], 0);
+        VH_CASE_END
+      }
+  }
   /* Four-Russians routes writing into a supplied result whose rows start at every word alignment (the tables are laid out
    * with the same alignment as the result): result widths with an even and an odd number of words, not multiples of 64 */
   if (vh_views) {
